@@ -56,11 +56,18 @@ const (
 func genCase(rt *rapid.T) Case {
 	c := Case{Seed: rapid.Uint64Range(1, 1<<40).Draw(rt, "seed")}
 	c.Ops = append(c.Ops, Op{K: "space_create"})
-	c.Ops = append(c.Ops, Op{K: rapid.SampledFrom([]string{"create_eager", "create_deferred"}).Draw(rt, "create"), A: rapid.IntRange(0, 3).Draw(rt, "pre")})
+	pre := rapid.IntRange(0, 3).Draw(rt, "pre")
+	if rapid.IntRange(0, 7).Draw(rt, "bigfetch") == 0 {
+		pre = 258 + rapid.IntRange(0, 30).Draw(rt, "bigpre") // a fetched tree larger than any plausible write chunk
+	}
+	c.Ops = append(c.Ops, Op{K: rapid.SampledFrom([]string{"create_eager", "create_deferred"}).Draw(rt, "create"), A: pre})
 	n := rapid.IntRange(2, vstat.Pick(6, 10)).Draw(rt, "nops")
 	for i := 0; i < n; i++ {
 		k := rapid.SampledFrom([]string{"local", "local", "snapshot", "remote", "remote", "remote_snapshot", "stale_remote", "acl", "reopen"}).Draw(rt, "k")
 		c.Ops = append(c.Ops, Op{K: k, A: rapid.IntRange(1, 3).Draw(rt, "a"), B: rapid.IntRange(0, 3).Draw(rt, "b")})
+	}
+	if rapid.IntRange(0, 6).Draw(rt, "bulksync") == 0 {
+		c.Ops = append(c.Ops, Op{K: "bulk_sync", A: rapid.IntRange(0, 20).Draw(rt, "bulksyncn")})
 	}
 	if rapid.Bool().Draw(rt, "del") {
 		if rapid.IntRange(0, 2).Draw(rt, "bulk") == 0 {
@@ -383,9 +390,24 @@ func (w *world) faultAction(step int, a action) error {
 	if os.Getenv("VERIF_DEBUG") != "" {
 		fmt.Printf("BOUNDS %s: %+v\n", a.name, bounds)
 	}
+	// an operation with very many boundaries (a bulk add): every transaction edge is kept, the
+	// inserts in between are thinned out evenly (counted in coverage.extra)
+	keep := map[int]bool{}
+	if len(bounds) > 48 {
+		for i, b := range bounds {
+			edge := b.Kind == "begin" || b.Kind == "commit" || (i > 0 && (bounds[i-1].Kind == "begin" || bounds[i-1].Kind == "commit")) ||
+				(i+1 < len(bounds) && (bounds[i+1].Kind == "commit" || bounds[i+1].Kind == "begin"))
+			if edge || i < 3 || i >= len(bounds)-3 || i%(len(bounds)/24+1) == 0 {
+				keep[b.N] = true
+			}
+		}
+		w.classes["bulk-operation-thinned"] = true
+		vstat.Count("boundaries_thinned_out", int64(len(bounds)-len(keep)))
+	}
+	skip := func(b faultstore.Boundary) bool { return len(keep) > 0 && !keep[b.N] }
 	// --- crash images
 	for _, b := range bounds {
-		if b.Kind == "rollback" {
+		if b.Kind == "rollback" || skip(b) {
 			continue
 		}
 		img := fmt.Sprintf("%s/%d", imgs, b.N)
@@ -409,7 +431,7 @@ func (w *world) faultAction(step int, a action) error {
 	}
 	// --- injected errors
 	for _, b := range bounds {
-		if b.Kind == "rollback" {
+		if b.Kind == "rollback" || skip(b) {
 			continue
 		}
 		runk := fmt.Sprintf("%s/runk-%d-%d", w.dir, step, b.N)
@@ -597,7 +619,7 @@ func run(c Case) (out vstat.Outcome, err error) {
 		case "create_deferred":
 			// the producer edits first so that the fetched tree has content
 			for i := 0; i < op.A; i++ {
-				if _, err := s.Edit(producer, i == 1, 12); err != nil {
+				if _, err := s.Edit(producer, i == 1 && op.A < 10, 12); err != nil {
 					return out, err
 				}
 			}
@@ -655,6 +677,37 @@ func run(c Case) (out vstat.Outcome, err error) {
 			staleMsgs = append(staleMsgs, ms...)
 			a = action{name: op.K, needs: "tree", retrySame: true, apply: func(rep *treesim.Replica, _ anystore.DB) error {
 				return s.HandleHeadUpdateOn(rep, last)
+			}}
+		case "bulk_sync":
+			// the producer runs far ahead while the subject is offline; the subject then asks for a
+			// full sync and the whole stretch arrives in ONE response batch = one storage write
+			if sub().Tree == nil {
+				continue
+			}
+			for i := 0; i < 258+op.A; i++ {
+				if _, err := s.Edit(producer, false, 8); err != nil {
+					return out, err
+				}
+			}
+			s.InFlight = nil // every head update is lost
+			if err := s.SyncWithPeer(subject, producer); err != nil {
+				return out, err
+			}
+			if err := syncProducer(); err != nil { // the producer serves the request
+				return out, err
+			}
+			var stream *treesim.Msg
+			for _, m := range s.InFlight {
+				if m.Kind == treesim.ResponseStream && m.To == subject {
+					stream = m
+				}
+			}
+			s.InFlight = nil
+			if stream == nil {
+				continue
+			}
+			a = action{name: "bulk_sync", needs: "tree", retrySame: true, apply: func(rep *treesim.Replica, _ anystore.DB) error {
+				return s.DeliverStreamOn(rep, stream)
 			}}
 		case "bulk":
 			// not faulted: a long stretch of remote changes (more than one deletion batch would hold)
@@ -810,4 +863,14 @@ func TestRegLocalAddAclDelete(t *testing.T) {
 func TestRegDeleteLongTree(t *testing.T) {
 	outerT = t
 	vstat.One(t, prop, Case{Seed: 9, Ops: []Op{{K: "space_create"}, {K: "create_eager"}, {K: "local", A: 1}, {K: "bulk", A: 3}, {K: "delete"}}}, run)
+}
+
+func TestRegBulkSync(t *testing.T) {
+	outerT = t
+	vstat.One(t, prop, Case{Seed: 11, Ops: []Op{{K: "space_create"}, {K: "create_eager"}, {K: "local", A: 1}, {K: "bulk_sync", A: 4}, {K: "local", A: 1}}}, run)
+}
+
+func TestRegFetchLargeTree(t *testing.T) {
+	outerT = t
+	vstat.One(t, prop, Case{Seed: 10, Ops: []Op{{K: "space_create"}, {K: "create_deferred", A: 262}, {K: "local", A: 1}}}, run)
 }
